@@ -497,7 +497,9 @@ def main():
             notes.append(f"{cnt} violations of class {key} (first one reported)")
 
     # 2. something no longer checks but no failing input so far: search harder, then report
-    if (broken or hard_fail) and not violations and not an.h0:
+    # (a property-false record that is a listed known finding does not excuse a broken proof / correspondence elsewhere)
+    h0_unknown = [t for t in an.h0 if not classify_known(pid, t[3][3:] if t[3].startswith("H0:") else t[3], t[0], known)]
+    if (broken or hard_fail) and not violations and not h0_unknown:
         found = None
         if harness_ok and lb["driver_ok"] and not replay:
             for extra_seed in range(seed + 1000, seed + 1000 + cfg.get("search_rounds", 3)):
